@@ -78,7 +78,7 @@ class Need:
     def wait(self):
         if self.kind == "pacing":
             need = self.bits // max(self.minrate, 1) + (self.n + 3) * self.ival + 5
-        elif self.kind == "leaky":
+        elif self.kind.endswith("leaky"):
             need = (self.n + 3) * 5 + 5
         else:
             need = 5
@@ -291,11 +291,65 @@ def rate_flap_script(rng):
     return {"kind": "pacing", "rate": r1 * 1000, "ival": ival, "qsize": 8192, "streams": [1, 2], "steps": steps}
 
 
+def fault_script(rng, kind):
+    """the next writer of a stream fails for chosen packets (once, or for a few attempts): every accepted packet is still
+    handed over exactly once - the failed attempt is its delivery - and the packets behind it, of every stream, follow in
+    order."""
+    rate = rng.choice([1000, 10000, 50000])
+    ival = rng.choice([1, 5]) if kind == "pacing" else 5
+    need = Need(kind, rate, ival)
+    steps = []
+    n = rng.choice([12, 20, 30])
+    for i in range(n):
+        st = wr(i + 1, rng.choice([1, 2, 3]), rng.choice([52, 112, 212, 512]))
+        if rng.random() < 0.25 or i == 1:
+            st["fail"] = rng.choice([1, 1, 2, 3])
+        steps.append(st)
+        need.write(512)
+        if rng.random() < 0.2:
+            steps.append({"a": "sleep", "ms": rng.choice([1, ival, 2 * ival])})
+    steps += [{"a": "sleep", "ms": 4 * ival}, {"a": "quiesce", "wait": need.wait()}]
+    for i in range(3):      # and the pacer goes on working afterwards
+        steps.append(wr(n + i + 1, rng.choice([1, 2, 3]), 112))
+        need.write(112)
+    steps += [{"a": "sleep", "ms": 4 * ival}, {"a": "quiesce", "wait": need.wait()}, {"a": "close"}]
+    return {"kind": kind, "rate": rate * 1000, "ival": ival, "qsize": 256, "streams": [1, 2, 3], "steps": steps}
+
+
+def bwe_script(rng, kind):
+    """the pacers as gcc.SendSideBWE wires them: AddStream(info, writer) for a mixed set of streams - some negotiated the
+    transport-wide-cc extension (their packets carry it), some did not - then writes through the returned writer, from
+    one or two goroutines."""
+    rate = rng.choice([1000, 10000])
+    streams = [1, 2, 3]
+    mix = rng.choice([[1], [2], [1, 3], [2, 3], [3], [1, 2]] + ([[1, 2, 3], []] if rng.random() < 0.3 else []))
+    twcc = [[s, rng.randint(1, 14)] for s in mix]
+    rng.shuffle(streams)            # AddStream order
+    need = Need(kind, rate, 5)
+    ident = 0
+
+    def prog(n):
+        nonlocal ident
+        out = []
+        for _ in range(n):
+            ident += 1
+            out.append(wr(ident, rng.choice([1, 2, 3]), rng.choice([52, 112, 212, 1212])))
+            need.write(1212)
+            if rng.random() < 0.2:
+                out.append({"a": "sleep", "ms": rng.choice([0, 1, 5])})
+        return out
+    steps = prog(rng.choice([6, 10]))
+    steps.append({"a": "quiesce", "wait": need.wait()})
+    steps.append({"a": "par", "progs": [prog(8), prog(8)]})
+    steps += [{"a": "quiesce", "wait": need.wait()}, {"a": "close"}]
+    return {"kind": kind, "rate": rate * 1000, "ival": 5, "streams": streams, "twcc": twcc, "steps": steps}
+
+
 def nontrivial(evs):
     kind = evs[0].get("kind")
     if not any(e["a"] == "rel" for e in evs):
         return False
-    if kind != "noop":
+    if not kind.endswith("noop"):
         return True
     return len({e.get("g") for e in evs if e["a"] == "call"}) > 1
 
@@ -455,6 +509,10 @@ def run(ctx):
     nflap, npool = (6, 12) if quick else (60, 120)
     x_tb += [rate_flap_script(rng) for _ in range(nflap)] + [pool_script(rng, "pacing") for _ in range(npool // 3)]
     pool = [pool_script(rng, "leaky") for _ in range(npool)]
+    nfault, nbwe = (8, 12) if quick else (120, 200)
+    x_tb += [fault_script(rng, "pacing") for _ in range(nfault)]
+    x_gcc += [fault_script(rng, "leaky") for _ in range(nfault // 2)]
+    x_gcc += [bwe_script(rng, k) for k in ("bwe-leaky", "bwe-leaky", "bwe-noop") for _ in range(nbwe // 3)]
     run_batches(ctx, [
         ("G-pacing", "pacing", tb + over),
         ("G-gcc", "gcc", gcc),
